@@ -1,0 +1,67 @@
+//go:build verif
+
+package server
+
+import (
+	"bytes"
+	"errors"
+	"fmt"
+
+	"github.com/tidwall/btree"
+	"github.com/tidwall/tile38/internal/collection"
+	"github.com/tidwall/tile38/internal/endpoint"
+)
+
+// Verification hooks of the hook / channel life-cycle check (properties C03,
+// C14, C19): direct calls into the two parsers that the life-cycle model treats
+// as oracles. Nothing here touches a running server.
+
+// VerifFenceParse runs what cmdSetHook runs on the fence command of a SETHOOK /
+// SETCHAN (cmdlc is the lower-cased command word, vs the tokens after it):
+// cmdSearchArgs, the FENCE test and newScanWriter's output check, on a server
+// without collections. It returns the key of the fence, or the error text.
+// Fence commands using WHEREEVAL need the Lua pool and are refused here.
+func VerifFenceParse(cmdlc string, vs []string) (key string, errText string) {
+	defer func() {
+		if r := recover(); r != nil {
+			key, errText = "", "panic: "+fmt.Sprint(r)
+		}
+	}()
+	s := &Server{cols: &btree.Map[string, *collection.Collection]{}}
+	var types map[string]bool
+	switch cmdlc {
+	case "nearby":
+		types = nearbyTypes
+	case "within", "intersects":
+		types = withinOrIntersectsTypes
+	default:
+		return "", "not a fence command"
+	}
+	args, err := s.cmdSearchArgs(true, cmdlc, vs, types)
+	if args.usingLua() {
+		defer args.Close()
+	}
+	if err != nil {
+		return "", err.Error()
+	}
+	if !args.fence {
+		return "", errors.New("missing FENCE argument").Error()
+	}
+	var wr bytes.Buffer
+	_, err = s.newScanWriter(
+		&wr, &Message{}, args.key, args.output, args.precision, args.globs, false,
+		args.cursor, args.limit, args.wheres, args.whereins, args.whereevals,
+		args.nofields, args.mvt, args.tileX, args.tileY, args.tileZ)
+	if err != nil {
+		return "", err.Error()
+	}
+	return args.key, ""
+}
+
+// VerifEndpointValidate is s.epc.Validate(url): "" when the url is accepted.
+func VerifEndpointValidate(url string) string {
+	if err := endpoint.VerifValidate(url); err != nil {
+		return err.Error()
+	}
+	return ""
+}
